@@ -11,6 +11,12 @@ use serde::Deserialize;
 use serde_json::{json, Value};
 use std::io::Write;
 use std::panic::{catch_unwind, AssertUnwindSafe};
+use std::sync::atomic::{AtomicU64, Ordering};
+use std::sync::Mutex;
+
+/// progress counter and description of the call in flight (for the hang monitor)
+static PROGRESS: AtomicU64 = AtomicU64::new(0);
+static CURRENT: Mutex<String> = Mutex::new(String::new());
 
 fn limbs64(v: u64) -> Vec<u32> {
     (0..4).map(|i| ((v >> (16 * i)) & 0xffff) as u32).collect()
@@ -37,6 +43,8 @@ impl Src {
 
 /// run `f` with a freshly built source; returns (result, bytes consumed from fuzzer input)
 fn with_src<T>(src: &Src, f: impl FnOnce(&mut GenerationSource) -> T) -> Result<(T, usize), String> {
+    PROGRESS.fetch_add(1, Ordering::Relaxed);
+    crate::common::tick(String::new);
     let r = catch_unwind(AssertUnwindSafe(|| match src {
         Src::Rand(s) => {
             let mut rng = ChaCha8Rng::seed_from_u64(*s);
@@ -103,6 +111,9 @@ impl Out {
         let k = self.n % self.files.len();
         writeln!(self.files[k], "{}", v).unwrap();
         self.n += 1;
+        if self.n % 5000 == 0 {
+            for f in self.files.iter_mut() { let _ = f.flush(); }
+        }
     }
 }
 
@@ -209,6 +220,7 @@ fn mutator_calls(spec: &Spec, rng: &mut ChaCha8Rng, out: &mut Out) {
                 let (sk, sv) = src.json();
                 for &(rc, rate) in &rates {
                     let base = json!({"t": "mut", "mut": mid, "um": if unsafe_mode {1} else {0}, "rate": rc, "sk": sk, "src": sv});
+                    *CURRENT.lock().unwrap() = base.to_string();
                     let mut emit = |meth: &str, inp: Value, res: Result<(Value, usize), String>| {
                         let mut v = base.clone();
                         v["meth"] = json!(meth);
@@ -281,6 +293,22 @@ fn mutator_calls(spec: &Spec, rng: &mut ChaCha8Rng, out: &mut Out) {
 pub fn main(args: &[String]) -> i32 {
     let spec: Spec = serde_json::from_str(&std::fs::read_to_string(&args[0]).expect("read")).expect("parse");
     std::panic::set_hook(Box::new(|_| {}));
+    // hang monitor: a call that does not return within 20 s ends the process with exit code 3 after
+    // naming the (mutator, source, rate) combination in flight; records written so far stay valid
+    std::thread::spawn(|| {
+        let mut last = 0u64;
+        let mut stuck = 0;
+        loop {
+            std::thread::sleep(std::time::Duration::from_secs(1));
+            let now = PROGRESS.load(Ordering::Relaxed);
+            if now == last { stuck += 1; } else { stuck = 0; last = now; }
+            if stuck >= 20 && now > 0 {
+                let cur = CURRENT.lock().map(|c| c.clone()).unwrap_or_default();
+                println!("{}", json!({"hang": cur}));
+                std::process::exit(3);
+            }
+        }
+    });
     let mut rng = ChaCha8Rng::seed_from_u64(spec.seed);
     let mk = |kind: &str| Out {
         files: (0..spec.shards).map(|i| std::io::BufWriter::new(std::fs::File::create(format!("{}{}_{}.ndjson", args[1], kind, i)).expect("create"))).collect(),
@@ -288,6 +316,7 @@ pub fn main(args: &[String]) -> i32 {
     };
     let mut e = mk("ent");
     entropy_calls(&spec, &mut rng, &mut e);
+    for f in e.files.iter_mut() { let _ = f.flush(); }
     let mut m = mk("mut");
     mutator_calls(&spec, &mut rng, &mut m);
     println!("{}", json!({"ent": e.n, "mut": m.n}));
